@@ -97,7 +97,10 @@ func (r *FeatureLocal) AddFunctionType(function model.FunctionType, read, write 
 		r.ftype == model.FeatureTypeTypeDeviceDiagnosis &&
 		function == model.FunctionTypeDeviceDiagnosisHeartbeatData {
 		// Update HeartbeatManager
-		r.Entity().HeartbeatManager().SetLocalFeature(r.Entity(), r)
+		// the device information entity has none
+		if heartbeatMgr := r.Entity().HeartbeatManager(); heartbeatMgr != nil {
+			heartbeatMgr.SetLocalFeature(r.Entity(), r)
+		}
 	}
 }
 
